@@ -72,7 +72,7 @@ PROPERTIES = {
         units=['u_find', 'u_tsiter', 'u_rel', 'u_posidx'],
         finders=['find_related_text', 'find_index_walk'],
         level_text="Deductive proof (Verus/Z3) of the range choice of the related-text search: for every operator/modifier combination, every non-empty reference set and every well-formed candidate inside the text, if the relation test (proved equal to the appendix-A specification in u_rel) holds for the candidate then FindTextSelectionsIter::init_textseliters has chosen an index range and direction that visits it (forward by begin / backward by end), and no candidate is visited by two ranges; TextResource::iter covers every selection including one that begins at the very end of the text. The filter/buffer logic (walk region of next_textselection, next_iterator, next) is proved to return, as a multiset, exactly the handles of the walked selections for which the test holds and which are not members of the reference set - nothing lost, nothing twice - and to terminate.",
-        level_note="TextSelectionIter::next / next_back (the walk over the position index) are verified in u_tsiter against the sequence of handles still to be yielded (rest of the current per-position list, then the lists of the remaining entries from the front / from the back); trusted there: btree_map::Range is a double-ended iterator over the entries of the range in key order, slice iterators obey vstd's iterator laws. Still assumed in u_find: that a fresh TextResource::range(b,e) holds exactly the entries with b <= position < e (BTreeMap::range) so that each indexed selection is visited once; that every inserted selection IS indexed under both its begin and its end is proved (u_posidx, closures of the entry API lifted, entry API trusted); the five glue lines of next_textselection (Equals shortcut via known_textselection, lazy call of init_textseliters) are not verified - its walk region and next() are; whitespace-gap scan uninterpreted.",
+        level_note="TextSelectionIter::next / next_back (the walk over the position index) are verified in u_tsiter against the sequence of handles still to be yielded (rest of the current per-position list, then the lists of the remaining entries from the front / from the back); trusted there: btree_map::Range is a double-ended iterator over the entries of the range in key order, slice iterators obey vstd's iterator laws. Two lemmas over that contract (u_tsiter) show that a walk over index entries with distinct ascending positions, each listing exactly the selections that begin / end there, yields every such selection exactly once - the 'each indexed selection once' assumption of u_find. Still assumed: that a fresh TextResource::range(b,e) holds exactly the entries with b <= position < e (BTreeMap::range), and entry exactness as a standing invariant (its insertion side is u_posidx); that every inserted selection IS indexed under both its begin and its end is proved (u_posidx, closures of the entry API lifted, entry API trusted); the five glue lines of next_textselection (Equals shortcut via known_textselection, lazy call of init_textseliters) are not verified - its walk region and next() are; whitespace-gap scan uninterpreted.",
         design_ref='DESIGN.md §7.5',
         explanation="cover + once clauses over the relation specification; oracle shared with C13",
         assumptions=["BTreeMap::range yields exactly the entries of the half-open range in key order (std)", "reference selections lie inside the text"],
